@@ -207,6 +207,9 @@ def adversarial(seed, sizes, tag="adv"):
             "emptylines": (b"\r\n" * (n // 2) + b"GET / HTTP/1.1\r\n\r\n", "q", 0),
             "reason": (b"HTTP/1.1 200 " + b"r \t" * (n // 3) + b"\r\n\r\n", "p", 0),
             "foldws": (b"HTTP/1.1 200 OK\r\nA:" + b"\r\n " * (n // 3) + b"\r\n\r\n", "p", 2),
+            "foldblank": (b"HTTP/1.1 200 OK\r\nA: b" + b"\r\n " * (n // 3) + b"\r\n\r\n", "p", 2),
+            "foldtabs": (b"HTTP/1.1 200 OK\r\nA: b" + b"\r\n\t \t" * (n // 5) + b"\r\nB: c\r\n\r\n", "p", 2),
+            "trailws": (b"A: b" + b" \t" * (n // 2) + b"\r\n\r\n", "h", 0),
         }
         for name, (b, kind, cfg) in fams.items():
             cap = 0 if name == "many" and n > 4096 else 8
